@@ -53,14 +53,14 @@ CHECKS = {
          "get_SCD vs that lag form on every pattern <= 7/10 and random sequences to 300.",
          "Real.sqrt vs float sqrt: compared within 1e-9; the harness takes the square roots (math.sqrt, fsum).",
          "Lean 4 proof over R (Finset sum reindexing) + differential correspondence through exact integer lag sums"),
- "C09": ("PARTIAL. The pH model is written once, generically over a RealLike class; instantiated with R the Lean theorems prove for every sequence: the "
+ "C09": ("The pH model is written once, generically over a RealLike class; instantiated with R the Lean theorems prove for every sequence: the "
          "single pass equals the sum of per-residue Henderson-Hasselbalch fractions; NCPR(pH) is antitone in pH; |NCPR(pH)| <= FCR(pH) <= titratable/N; "
          "FER = FCR + fP; a pH is rejected iff outside [0,14]; the pI loop terminates (returns or raises) within 221 iterations for ANY charge function; "
-         "any returned pI has |mean charge per titratable residue| <= 0.02; nothing titratable => 7.0. Tie: pKa table, titration classes and the "
+         "any returned pI has |mean charge per titratable residue| <= 0.02; nothing titratable => 7.0; and (Props/C09Pi.lean) the loop NEVER takes its error exit: for any antitone charge function with a point r in [0,24] where |f r| <= 0.01 and |f x - f r| <= 0.01 within 1/256 of r the search returns (loop invariant over bracket, width 14/2^breakcount, escape counter), and the normalised Henderson-Hasselbalch charge of EVERY sequence is such a function whenever basic pKa <= 13 and acidic pKa >= 2 (logistic modulus 10^(1/256) <= 1.01, end-point bounds at pH 0 and 24, a grid walk instead of the intermediate-value theorem) - instantiated for the published EMBOSS table and for the table regenerated from the live code. Tie: pKa table, titration classes and the "
          "half-titration points probed from the live charge_at_pH equal the EMBOSS values. Instantiated with Float the same definitions run in the driver "
          "and are compared with the real getters on a pH grid and with get_isoelectric_point (tol 1e-9).",
-         "NOT proved: that the loop never takes the raise branch for any composition (needs Lipschitz/limit analysis of the logistic terms); covered by "
-         "running the real code on all multisets of titratable classes up to size 3/5 and extreme compositions (a test, not a theorem). Float vs R: trusted.",
+         "Float vs R: the theorems are about exact reals; that IEEE doubles / libm pow follow the same branches is checked by correspondence only (all multisets of "
+         "titratable classes up to size 3/5, extreme compositions, random sequences), not proved.",
          "Lean 4 proof over R of a generic model (also executed on Float) + regenerated pKa/class facts + differential correspondence"),
  "C10": ("Lean theorems for every list and window: the code's flank arithmetic gives floor((w-1)/2) leading and floor(w/2) trailing zeros; a profile is "
          "answered iff w <= N and then has exactly N values, entry i+floor((w-1)/2) is the statistic of the window starting at residue i, the flanks are 0; "
